@@ -1,5 +1,5 @@
 (* C03/C12/C04 - the two executors as instances of the machine of VM.v.
-   prims_vm : what vm/vm.go calls (alg/spec.go: strconv for integers, F64toa/F32toa with their `v == 0` shortcut,
+   prims_vm : what vm/vm.go calls (alg/spec.go: strconv for integers, F64toa/F32toa with their `v == 0` branch,
               vars.Stack.Push) and the option bits its `case ir.OP_x` clauses test;
    prims_jit: what the x86 code calls (native i64toa/u64toa - the fastint.h model of Num/IntPrint.v -, native
               f64toa/f32toa, save_state) and the option bits its _asm_OP_x functions test.
@@ -42,8 +42,9 @@ Definition is_zero_f32 (bits : N) : bool := (bits mod 2 ^ 31 =? 0)%N.
 Definition prims_vm : prims := {|
   p_i64toa := itoa;                                                    (* strconv.AppendInt *)
   p_u64toa := fun z => utoa (Z.to_N z);                                (* strconv.AppendUint *)
-  p_f64toa := fun bits txt => if is_zero_f64 bits then [48%N] else txt;   (* alg.F64toa: if v == 0 { return append(buf, '0') } *)
-  p_f32toa := fun bits txt => if is_zero_f32 bits then [48%N] else txt;
+  (* alg.F64toa / F32toa after fix b09723f: if v == 0 { if math.Signbit(v) { "-0" } else { "0" } } *)
+  p_f64toa := fun bits txt => if is_zero_f64 bits then (if (bits =? 0)%N then [48%N] else [45%N; 48%N]) else txt;
+  p_f32toa := fun bits txt => if is_zero_f32 bits then (if (bits =? 0)%N then [48%N] else [45%N; 48%N]) else txt;
   p_quote := quote;
   p_stack := vm_frames;
   b_f32 := vm_b_f32; b_f64 := vm_b_f64; b_map_write_key := vm_b_map_write_key;
